@@ -19,6 +19,13 @@ func (core *JApiCore) processInclude(keyword *scanner.Lexeme) *jerr.JApiError {
 	// This directive shouldn't be among core.directives, because we simply
 	// "paste" included file content inside current file.
 
+	// The directive written before the INCLUDE is complete: place it now, while
+	// the scanners stack still describes the file it was written in (an error
+	// about it must not carry the trace of the file that is about to be included).
+	if je := core.processCurrentDirective(); je != nil {
+		return je
+	}
+
 	if je := core.checkBannedDirective(directive.Include, coordsFromLexeme(*keyword)); je != nil {
 		return je
 	}
